@@ -42,6 +42,7 @@ NON_PY_KW = [k for k in KWS if not pykw.iskeyword(k)]
 POSITIONS = [
     "function", "class", "method", "property", "parameter", "class-attr", "instance-attr", "enum-member", "typevar",
     "result-name", "enum-name", "class-ref", "superclass", "module-segment", "package-segment", "reexport-alias",
+    "class-typevar",
 ]
 
 
@@ -85,6 +86,13 @@ def build_keyword_package(naming: bool, gated: set) -> tuple[dict, dict]:
     add("enum-member", "m_enumm", "from enum import Enum\n\n\nclass Variants(Enum):\n" + "".join(f"    {n} = {i}\n" for i, n in enumerate(enames)))
     add("typevar", "m_tvar", "from typing import TypeVar\n\n" + "".join(f'{n} = TypeVar("{n}")\n' for n in enames)
         + "".join(f"\n\ndef tv_{i}(x: {n}) -> {n}: ...\n" for i, n in enumerate(enames)))
+    # type parameters of generic classes: invariant, covariant, contravariant, bounded - declared in the class header, used in its body
+    if "ident:keyword@class-typevar" not in gated:
+        for var, kw in (("inv", ""), ("co", ", covariant=True"), ("contra", ", contravariant=True"), ("bound", ", bound=int")):
+            files[f"src/pk/m_ctv_{var}.py"] = "from typing import Generic, TypeVar\n\n" + "".join(f'{n} = TypeVar("{n}"{kw})\n' for n in enames) + "".join(
+                f"\n\nclass G{var.title()}{i}(Generic[{n}]):\n" + (f"    def put(self, x: {n}) -> None: ...\n" if var != "co" else f"    def get(self) -> {n}: ...\n")
+                for i, n in enumerate(enames))
+        feats["class-typevar"] = 4 * len(enames)
     add("result-name", "m_res", "".join(
         f'def rs_{i}() -> int:\n    """Doc.\n\n    Returns\n    -------\n    {n} : int\n        The result.\n    """\n    return 1\n\n\n' for i, n in enumerate(enames)))
     add("enum-name", "m_enumn", "from enum import Enum\n\n" + "".join(f"\nclass {n}(Enum):\n    A = 1\n\n" for n in enames))
